@@ -443,7 +443,8 @@ theorem C07_old_nine_argument_call (m : Msg) : inputErrorResult exitTableOld m =
 
 /-- … and two constants the user guide names are not exposed by the result object -/
 theorem C07_old_missing_constants :
-    exitTableOld.userGuideExits.filter (fun nm => !exitTableOld.exposes nm) = ["EXIT_TR_INCREASE_WARNING", "EXIT_EVAL_ERROR"] := by
+    "EXIT_TR_INCREASE_WARNING" ∈ exitTableOld.userGuideExits ∧ exitTableOld.exposes "EXIT_TR_INCREASE_WARNING" = false ∧
+    "EXIT_EVAL_ERROR" ∈ exitTableOld.userGuideExits ∧ exitTableOld.exposes "EXIT_EVAL_ERROR" = false := by
   decide +kernel
 
 end C07
